@@ -69,7 +69,7 @@ func checkC08(c *core.Ctx) {
 		"non-trivial = decoded file with more than one track or more than 3 instances; distinct by case")
 	c.Assume("smfdec implements SMF 1.0 strictly: chunk lengths, VLQ <= 4 bytes, running status, data bytes < 128, one end-of-track per track and last", "only successful runs are judged")
 
-	c.Stream("borrowed", c.N(3000, 30000), func(i int, r *rand.Rand) {
+	c.Stream("borrowed", c.N(3000, 80000), func(i int, r *rand.Rand) {
 		var p model.Piece
 		switch i % 3 {
 		case 0:
@@ -90,7 +90,7 @@ func checkC08(c *core.Ctx) {
 	})
 
 	instruments := []string{"", "x", "Piano", strings.Repeat("i", 127), strings.Repeat("j", 128), strings.Repeat("k", 300), "ピアノ", "a b", "-dash", "é", strings.Repeat("long", 5000)}
-	c.Stream("dedicated", c.N(2500, 25000), func(i int, r *rand.Rand) {
+	c.Stream("dedicated", c.N(2500, 60000), func(i int, r *rand.Rand) {
 		p := model.RandPiece(r, model.GenOpts{MinLen: 1, MaxLen: 8, RestProb: 0.25, SettingProb: 0.2, TextProb: 0.4, KeyChanges: true, BassProb: 0.3, MaxDeg: 9})
 		// chords that strike one key twice: bass an octave above the root coincides with the root
 		for j := range p.Inst {
